@@ -158,6 +158,37 @@ def loop_in_try(xs):
         finally:
             x = None
     return xs
+def handler_only_continues(items):
+    out = []
+    for it in items:
+        try:
+            out.append(int(it))
+        except ValueError as exc:
+            continue
+    return out
+
+
+def handler_only_breaks(items, conv):
+    n = 0
+    while items:
+        try:
+            n += conv(items.pop())
+        except (KeyError, TypeError) as exc:
+            break
+    return n
+
+
+def two_named_handlers(items, conv):
+    for it in items:
+        try:
+            conv(it)
+        except KeyError as e1:
+            continue
+        except ValueError as e2:
+            break
+    return items
+
+
 async def coro(xs):
     async for x in xs:
         if x:
@@ -356,6 +387,55 @@ def bounded_code_objects(tier, seed):
     return guarded(p, _check_code_objects, tier, seed)
 
 
+def _check_stdlib_sweep(part: Part, tier, seed):
+    """Every code object of the top-level modules of the standard library (quick: a seeded sample of the files)."""
+    import glob, os, random, types  # noqa: E401
+    from bytecode import Bytecode
+    from pynguin.instrumentation.controlflow import CFG
+    files = sorted(glob.glob(os.path.join(os.path.dirname(os.__file__), "*.py")))
+    if tier != "thorough":
+        files = sorted(random.Random(seed).sample(files, min(48, len(files))))
+
+    def walk(co):
+        yield co
+        for c in co.co_consts:
+            if isinstance(c, types.CodeType):
+                yield from walk(c)
+    for f in files:
+        try:
+            with open(f, encoding="utf-8") as fh:
+                top = compile(fh.read(), f, "exec")
+        except (SyntaxError, UnicodeDecodeError, ValueError):
+            continue
+        for code in walk(top):
+            part.case()
+            label = {"origin": os.path.basename(f), "code_object": f"{code.co_name}@{code.co_firstlineno}"}
+            try:
+                cfg = CFG.from_bytecode(Bytecode.from_code(code))
+            except Exception as e:  # noqa: BLE001
+                part.violation("a CFG can be built for every code object", "cfg-raises", {**label, "error": f"{type(e).__name__}: {e}"[:300]},
+                               target=f"{CF}:CFG.from_bytecode")
+                continue
+            try:
+                probs = cdg_problems(cfg, label)
+            except Exception as e:  # noqa: BLE001
+                part.violation("the CDG can be computed for every code object", "cdg-raises", {**label, "error": f"{type(e).__name__}: {e}"[:300]},
+                               target=f"{CF}:ControlDependenceGraph.compute")
+                continue
+            for clause, cls, detail in probs[:1]:
+                part.violation(clause, cls, detail, target=f"{CF}:ControlDependenceGraph.compute")
+
+
+def bounded_stdlib_sweep(tier, seed):
+    p = Part("C06", "cdg-of-stdlib-code-objects", [f"{CF}:CFG.from_bytecode", f"{CF}:filter_dead_code_nodes", f"{CF}:CFG._insert_dummy_nodes",
+                                                   f"{CF}:ControlDependenceGraph.compute"],
+             scope="every code object of the top-level modules of the interpreter's standard library (thorough: all ~165 files, ~8000 "
+                   "code objects; quick: a seeded sample of 48 files) through the real CFG.from_bytecode and ControlDependenceGraph: single "
+                   "entry and exit, every block reachable, CDG equal to the post-dominator oracle, root dependence",
+             bound="the standard library of the running interpreter")
+    return guarded(p, _check_stdlib_sweep, tier, seed)
+
+
 def bounded_small_graphs(tier, seed):
     p = Part("C06", "cdg-of-small-graphs", [f"{CF}:ControlDependenceGraph.compute", f"{CF}:ControlDependenceGraph.is_control_dependent_on_root"],
              scope="every control-flow shaped digraph on 1, 2 and 3 basic blocks (thorough: plus a seeded seventh of those on 4): "
@@ -365,7 +445,7 @@ def bounded_small_graphs(tier, seed):
     return guarded(p, _check_small_graphs, tier, seed)
 
 
-BOUNDED = [bounded_small_graphs, bounded_code_objects]
+BOUNDED = [bounded_small_graphs, bounded_code_objects, bounded_stdlib_sweep]
 META = {"level": "other", "explanation": "bounded contract check of the real CFG/CDG construction against the post-dominance "
                                          "definition, over exhaustively enumerated small graphs and the code objects of fixed modules",
         "rule": "one case per graph / code object; non-trivial = more than one block"}
